@@ -285,6 +285,16 @@ func (s *Sched) yieldHook(point string, obj any, n int64) {
 		return
 	}
 	t := s.cur
+	if point == "auto.lock" || point == "auto.rlock" {
+		// astyield passes &recv; the receiver variable belongs to this
+		// task, so it is dereferenced here, on the task's own goroutine:
+		// the scheduler must never read task-owned memory (under the race
+		// detector that would be reported, rightly, as a race)
+		obj = derefLock(obj)
+		if obj != nil && reflect.ValueOf(obj).Kind() != reflect.Ptr {
+			obj = nil
+		}
+	}
 	t.point, t.obj, t.n = point, obj, n
 	s.Gate.Notify()
 	for {
@@ -553,14 +563,6 @@ func (s *Sched) Run(bodies []func(t *TaskCtx)) *RunResult {
 		}
 		t.pid = pid
 		oid := uint16(0)
-		if pid == PAutoLock || pid == PAutoRLock {
-			if obj != nil {
-				obj = derefLock(obj)
-				if reflect.ValueOf(obj).Kind() != reflect.Ptr {
-					obj = nil
-				}
-			}
-		}
 		if obj != nil && pid != PPoolGet && pid != PPoolPut {
 			// (which pooled object a query gets is not the program's
 			// decision -- sync.Pool drops objects at will, and randomly so
@@ -723,7 +725,6 @@ func derefLock(obj any) any {
 }
 
 func realProbe(obj any, read bool) bool {
-	obj = derefLock(obj)
 	if read {
 		if l, ok := obj.(tryRLocker); ok {
 			if !l.TryRLock() {
